@@ -8,7 +8,7 @@ from ..constfold import table
 from ..model import AnalysisError
 from .common import ob, need, call_name, is_lit, lit, role_of, roles, resolve_ite_free
 from .. import symeval
-from . import c04, c07, c10, c11, c12
+from . import c04, c07, c10, c11, c12, common
 
 PROP = "C09"
 EXPLANATION = (
@@ -342,9 +342,21 @@ def rule_rotaterows(ctx):
     good = len(calls) == 1 and len(calls[0].args) == 2 and all(a.op == "iter" and a.a[0].op == "param" for a in calls[0].args) and [a.a[0].a[0] for a in calls[0].args] == ["bitmaps", "roots"] and calls[0].args[0].a[1] == calls[0].args[1].a[1]
     t = s.returns[0].term
     collected = any(x is calls[0].term for x in tm.walk(t)) if calls else False
-    yield ob(R, f, "chord.rotate_bitmaps_to_roots:per-row", good and collected, "row i is rotate_bitmap_to_root(bitmaps[i], roots[i])" if good and collected else "rows are not rotated one by one by rotate_bitmap_to_root(bitmap, its own root): %s" % tm.show(t, 4), node=s.returns[0].node)
     g = ctx.program.func("chord.rotate_bitmap_to_root", R)
     sg = ctx.S.get(g.qual)
+    if not calls and len(sg.returns) == 1:
+        # both functions share helpers evaluated in place: row i must be what rotate_bitmap_to_root computes for
+        # (bitmaps[i], roots[i]) - its returned term with the row and the row's own root substituted
+        comps = [x for x in tm.walk(t) if x.op == "comp" and x.a[0] == "list" and len(x.a[2]) == 1 and not x.a[3]]
+        for c in comps:
+            it = c.a[2][0]
+            if it.op == "call" and call_name(it) == "builtins.zip" and [z.a[0] if z.op == "param" else None for z in it.a[1]] == ["bitmaps", "roots"]:
+                row, root = tm.mk("iter", it.a[1][0], c.a[4]), tm.mk("iter", it.a[1][1], c.a[4])
+                bind = {g.params[0]: row, g.params[1]: root}
+                inst = tm.rebuild(sg.returns[0].term, lambda z: bind.get(z.a[0]) if z.op == "param" else None)
+                if common.shape_key(inst) == common.shape_key(c.a[1]):
+                    good = collected = True
+    yield ob(R, f, "chord.rotate_bitmaps_to_roots:per-row", good and collected, "row i is rotate_bitmap_to_root(bitmaps[i], roots[i])" if good and collected else "rows are not rotated one by one by rotate_bitmap_to_root(bitmap, its own root): %s" % tm.show(t, 4), node=s.returns[0].node)
     one_d = any(a.kind == "assert" and any(x.op == "attr" and x.a[1] == "ndim" for x in tm.walk(a.d.get("cond"))) for a in sg.by_kind("assert"))
     yield ob(R, g, "chord.rotate_bitmap_to_root:single-row", one_d, "rotate_bitmap_to_root asserts a one-dimensional bitmap, so an index shift never crosses rows")
 
